@@ -398,3 +398,35 @@ package dispatch
 //@   at call fmt.Sprintf assert [route-key-colon-labels] arg0 == "%s:%s" && len(arg1) == 2
 //@   ensures [the-formatted-text] result == ret("fmt.Sprintf")
 //@   assigns nothing
+
+// ---- C05 / C20: a group's flushes go through the dispatcher's pipeline with the batch the group handed over, and a
+// flush counts as successful exactly when the pipeline returned no error (only then are resolved alerts forgotten).
+//@ func (*Dispatcher).runAG
+//@   props C05 C20 C14
+//@   nosafe
+//@   ensures [started-at-most-once] count("go.stmt") == (ret("CompareAndSwap") ? 1 : 0)
+//@ func (*Dispatcher).runAG$1
+//@   props C05 C20
+//@   nosafe
+//@   at call Stage).Exec assert [the-group_s-batch-through-the-dispatcher_s-pipeline] arg3 == alerts && arg1 == ctx && count("Stage).Exec") == 0
+//@   ensures [flush-succeeds-exactly-when-the-pipeline-does] count("Stage).Exec") == 1 && result == (ret2("Stage).Exec") == nil)
+//@   noeffect Stage).Exec aggrGroup).GroupKey
+
+// ---- C07 / C17: walking the routing tree visits the node itself and then every child's subtree, in order.
+//@ func (*Route).Walk
+//@   props C07
+//@   requires r != nil && visit != nil
+//@   assumes forall i int :: 0 <= i && i < len(r.Routes) ==> r.Routes[i] != nil
+//@   at call dynamic:param:visit assert [the-node-itself-first] arg0 == r && count("Route).Walk") == 0
+//@   at call Route).Walk assert [every-child-in-order-with-the-same-visitor] arg0 == r.Routes[rangeindex1 + 1] && arg1 == visit && count("dynamic:param:visit") == 1
+//@   ensures [node-and-all-children] count("dynamic:param:visit") == 1 && count("Route).Walk") == len(r.Routes)
+//@   loop 1 invariant rangeindex < len(r.Routes) && count("Route).Walk") == rangeindex + 1 && count("dynamic:param:visit") == 1 && len(r.Routes) == old(len(r.Routes))
+//@   noeffect dynamic:param:visit Route).Walk
+
+// the exported constructor numbers the tree from zero
+//@ func NewRoute
+//@   props C07 C06
+//@   nosafe
+//@   at call newRoute assert [fresh-counter-from-zero] arg0 == cr && arg1 == parent && deref(arg2) == 0
+//@   ensures [the-tree-built] result == ret("newRoute")
+//@   noeffect newRoute
